@@ -24,8 +24,10 @@ naturals (bit positions of the lines' match sets).
 * `ios_steps_safe_partial` etc. (NA.Props.IosSafe): the same for the model of `diffIOSACLs` on the strict
   numbered-entry device (`ios_steps_old_or_final` for all ACLs, relative to the target for remark-free ACLs);
   `ios_no_common_line_unsafe` is the kernel-evaluated witness of finding F-C14b.
-* `routes_covered`: for scripts of the emitted shape every destination covered before and after
-  is covered after every step.
+* `routes_covered`: GENERIC lemma — for scripts of the emitted shape (adds and same-destination replacements,
+  then deletes, reaching the target) every destination covered before and after is covered after every step.
+  It is applied to the engines' own route plans, with its three hypotheses proved, in `NA.Props.F2`
+  (`ios_routes_covered_every_step`) and `NA.Props.F1`; the driver checks the shape on the real scripts.
 -/
 namespace NA.Acl
 
